@@ -100,26 +100,27 @@ type rawStore interface {
 }
 
 type rawWorld struct {
-	w        *lab.World
-	st       rawStore
-	mem      *lab.MemState // nil on the SQLite backend
-	db       *lab.JournaledDB
-	dbDir    string
-	ended    map[string]bool // SQLite backend: tokens whose session the harness has seen end
-	devs     []*rawDev       // index 0 unused
-	kind     lab.Kind
-	enc      protocol.KeyEncoding
-	appStart []byte
-	sigInfo  fdo.VerifSigInfo
-	sess     []*rawSess
-	clients  map[[2]int]kex.Session // (session, xb id) → device-side key exchange
-	lastXb   int
-	selfSess kex.Session
-	recorded map[int][]byte // session → last well-formed 64 body sent (for replays)
-	j0       int
-	suite    kex.Suite
-	ciph     kex.CipherSuiteID
-	sent     map[int][]byte // session → bytes of the last 64 sent on it
+	w          *lab.World
+	st         rawStore
+	mem        *lab.MemState // nil on the SQLite backend
+	db         *lab.JournaledDB
+	dbDir      string
+	ended      map[string]bool // SQLite backend: tokens whose session the harness has seen end
+	devs       []*rawDev       // index 0 unused
+	kind       lab.Kind
+	enc        protocol.KeyEncoding
+	appStart   []byte
+	sigInfo    fdo.VerifSigInfo
+	sess       []*rawSess
+	clients    map[[2]int]kex.Session // (session, xb id) → device-side key exchange
+	lastXb     int
+	selfSess   kex.Session
+	recorded   map[int][]byte // session → last well-formed 64 body sent (for replays); 1000+session → last well-formed 22 body
+	recorded22 map[int]rawReq // session → the request whose bytes recorded[1000+session] are
+	j0         int
+	suite      kex.Suite
+	ciph       kex.CipherSuiteID
+	sent       map[int][]byte // session → bytes of the last 64 sent on it
 }
 
 func sessIdx(tok string) int {
@@ -152,7 +153,7 @@ func (rw *rawWorld) close() {
 
 func newRawWorldOn(backend string, k lab.Kind, enc protocol.KeyEncoding, ndev int, reuse bool, suite kex.Suite, ciph kex.CipherSuiteID) *rawWorld {
 	ctx := context.Background()
-	rw := &rawWorld{kind: k, enc: enc, clients: map[[2]int]kex.Session{}, recorded: map[int][]byte{}, suite: suite, ciph: ciph,
+	rw := &rawWorld{kind: k, enc: enc, clients: map[[2]int]kex.Session{}, recorded: map[int][]byte{}, recorded22: map[int]rawReq{}, suite: suite, ciph: ciph,
 		sent: map[int][]byte{}}
 	// templates
 	{
@@ -568,6 +569,18 @@ func (rw *rawWorld) send(r rawReq) (res rawResp) {
 				fatal("encrypt: %v", err)
 			}
 			body = cborBytes(enc)
+		}
+	}
+	if r.Typ == 22 && r.Wf {
+		// OwnerSign: the bytes sent in a session are kept (key 1000+session); "replay" sends those of session NonceOf again
+		var from int
+		if n, _ := fmt.Sscanf(r.Variant, "replay22:%d", &from); n == 1 {
+			if b, ok := rw.recorded[1000+from]; ok {
+				body = b
+			}
+		} else if k := sessIdx(r.Tok); k >= 0 && r.Variant == "" {
+			rw.recorded[1000+k] = body
+			rw.recorded22[k] = r
 		}
 	}
 	if r.Typ == 64 && r.Wf {
